@@ -58,6 +58,14 @@ func TestC15Runs(t *testing.T) {
 				b.WriteString("    stages: 50ms:10,50ms:3\n    iteration-frequency: 10ms\n")
 			}
 			b.WriteString(fmt.Sprintf("    parameters:\n      VERIF_STAGE: \"%d\"\n      VERIF_ONLY_%d: \"1\"\n", i+1, i+1))
+			if round%2 == 1 {
+				// an entry the operating system refuses to set (the KEY=VALUE typo for KEY: VALUE): the
+				// stage's other parameters are present all the same
+				b.WriteString(fmt.Sprintf("      \"VERIF_TYPO_%d=1\": \"x\"\n", i+1))
+			}
+		}
+		if round%2 == 1 {
+			o.Count("file-run", "stages with a parameter the OS rejects")
 		}
 		path := filepath.Join(dir, fmt.Sprintf("c15_%d.yaml", round))
 		_ = os.WriteFile(path, []byte(b.String()), 0o600)
